@@ -22,6 +22,19 @@ fn universe() -> Vec<J> {
     let mut u = sub_universe();
     u.extend(vec![J::int(2), J::str("1"), J::Bool(true), J::Arr(vec![]), J::Bool(false), J::str(""), J::Obj(vec![]), J::float(1.5), J::Arr(vec![J::Arr(vec![J::int(1)])])]);
     // integers at and above i64::MAX (documents can hold them; equality must stay exact)
+    // elements nested deeper than a parser would produce
+    {
+        let mut a = J::str("deep");
+        let mut o = J::int(7);
+        for _ in 0..129 {
+            a = J::Arr(vec![a]);
+        }
+        for _ in 0..200 {
+            o = J::Obj(vec![("k".into(), o)]);
+        }
+        u.push(a);
+        u.push(o);
+    }
     u.extend(vec![J::int(i64::MAX), J::uint(9223372036854775808), J::uint(18446744073709551614), J::uint(18446744073709551615), J::Arr(vec![J::uint(18446744073709551615)])]);
     u
 }
@@ -207,6 +220,35 @@ pub fn run(ctx: &Ctx) -> Result<Evidence, String> {
                 large_a.push(a);
             }
         }
+    }
+    // lists of short strings that differ only by trailing NULs / padding (packed-key look-ups)
+    for &lb in &[9usize, 16, 40] {
+        for (xa, xb) in [("eu", "eu\u{0}"), ("", "\u{0}"), ("a", "a\u{0}\u{0}"), ("abcdefg", "abcdefg\u{0}"), ("abcdefgh", "abcdefgh"), ("ab", "ab "), ("\u{0}x", "x")] {
+            for swap in [false, true] {
+                let (ea, eb) = if swap { (xb, xa) } else { (xa, xb) };
+                let mut a: Vec<J> = (0..5).map(|i| J::str(&format!("t{}", i))).collect();
+                a.insert(2, J::str(ea));
+                large_a.push(a);
+                let mut b: Vec<J> = (0..lb - 1).map(|i| J::str(&format!("u{}", i))).collect();
+                b.insert(lb / 2, J::str(eb));
+                sorted_b.push(b);
+            }
+        }
+    }
+    // elements nested deeper than any parser limit, equal on both sides
+    for &depth in &[127usize, 128, 129, 200, 300] {
+        let nest = |leaf: J, arr: bool| {
+            let mut v = leaf;
+            for _ in 0..depth {
+                v = if arr { J::Arr(vec![v]) } else { J::Obj(vec![("k".into(), v)]) };
+            }
+            v
+        };
+        large_a.push(vec![nest(J::str("deep"), true), J::str("z1"), J::str("z2"), J::str("z3")]);
+        large_a.push(vec![nest(J::int(7), false), J::str("z1"), J::str("z2"), J::str("z3")]);
+        sorted_b.push(vec![J::str("y1"), nest(J::str("deep"), true), J::str("y2")]);
+        sorted_b.push(vec![J::str("y1"), nest(J::int(7), false), nest(J::int(8), false)]);
+        sorted_b.push(vec![J::str("y1"), nest(J::str("deeq"), true)]);
     }
     let first_large_b = bs.len();
     for &lb in &[16usize, 20, 32, 40, 64, 100] {
